@@ -31,7 +31,7 @@ property theorems.
     the reverse of their alloc order followed by reopen (or crash) + one more Put; and the
     same overlap across a page roll-over followed by ack + GC.
 -/
-import LinVerif.Lemmas.C05Mutants
+import LinVerif.Lemmas.C05Live
 import LinVerif.Generated.C05
 
 namespace LinVerif.Props.C05
@@ -375,7 +375,332 @@ theorem concurrent_put_generated : ConcurrentPut currentShape (allowedFor curren
 theorem concurrent_put_full_if_atomic (h : currentShape = .atomic) : concurrent_put_statement := by
   unfold concurrent_put_statement; rw [h]; exact concurrent_put_partial_atomic
 
+/-! ## round 8: page factory, page geometry, Get bounds, failed appends, partition glue -/
+
+/-- ties for the page factory, NewQueue and the meta page layout: the branch structure the
+factory model mirrors; which factories NewQueue creates with which page sizes; the two meta
+words do not overlap and fit the meta page; the fresh-directory branch stores both sequences. -/
+theorem factory_structure_tie :
+    C05.fctAcquireConds = expectedFctAcquireConds ∧ C05.fctAcquireStmts = expectedFctAcquireStmts ∧
+    C05.fctAcquireCalls = expectedFctAcquireCalls ∧
+    C05.fctGetPageConds = [] ∧ C05.fctGetPageStmts = expectedFctGetPageStmts ∧ C05.fctGetPageCalls = expectedFctGetPageCalls ∧
+    C05.fctCloseConds = expectedFctCloseConds ∧ C05.fctCloseStmts = expectedFctCloseStmts ∧
+    C05.fctCloseCalls = expectedFctCloseCalls ∧
+    C05.fctLoadPagesConds = expectedFctLoadPagesConds ∧ C05.fctLoadPagesStmts = expectedFctLoadPagesStmts ∧
+    C05.fctLoadPagesCalls = expectedFctLoadPagesCalls ∧
+    C05.fctFileNameStmts = expectedFctFileNameStmts ∧ C05.fctNewCalls = expectedFctNewCalls ∧
+    C05.fctPageSuffix = "bat" := by decide
+
+theorem meta_layout_tie :
+    C05.queueAppendedSeqOffset + 8 ≤ C05.queueAcknowledgedSeqOffset ∧
+    C05.queueAcknowledgedSeqOffset + 8 ≤ C05.metaPageSize ∧
+    C05.newQueueConds = expectedNewQueueConds ∧ C05.newQueueAccesses = expectedNewQueueAccesses ∧
+    C05.newQueueCalls = expectedNewQueueCalls ∧ C05.newQueueFactoryArgs = expectedNewQueueFactoryArgs := by decide
+
+/-- ties for replica/partition.go: WriteLog / ReplicaLog / ReplicaAckIndex / ResetReplicaIndex /
+Close / the head of IsExpire have the branches and calls `writeLog`, `replicaLog`,
+`replicaAckIndex`, `resetReplicaIndex` mirror; the FanOutQueue hands the reset to the queue unchanged -/
+theorem partition_glue_tie :
+    C05.writeLogConds = expectedWriteLogConds ∧ C05.writeLogStmts = expectedWriteLogStmts ∧
+    C05.writeLogCalls = expectedWriteLogCalls ∧
+    C05.replicaLogConds = expectedReplicaLogConds ∧ C05.replicaLogStmts = expectedReplicaLogStmts ∧
+    C05.replicaLogCalls = expectedReplicaLogCalls ∧
+    C05.replicaAckIndexStmts = expectedReplicaAckIndexStmts ∧
+    C05.resetReplicaIndexCalls = expectedResetReplicaIndexCalls ∧ C05.resetReplicaIndexArgs = expectedResetReplicaIndexArgs ∧
+    C05.partitionCloseConds = expectedPartitionCloseConds ∧ C05.partitionCloseCalls = expectedPartitionCloseCalls ∧
+    C05.isExpireHead = expectedIsExpireHead ∧
+    C05.fanoutSetAppendedCalls = expectedFanoutSetAppendedCalls ∧ C05.fanoutSetAppendedArgs = expectedFanoutSetAppendedArgs ∧
+    C05.fanoutQueueStmts = expectedFanoutQueueStmts := by decide
+
+/-- THE FACTORY INVARIANT, for every history of AcquirePage / TruncatePages / Close / Close+NewFactory
+on a factory opened on any set of page files: no page id twice, and the size counter is
+pageSize × number of pages. -/
+theorem factory_invariant (files : List Nat) (ps : Nat) (ops : List FOp) :
+    FInv ((Fct.new files ps).run ops) :=
+  run_inv_fct ops (new_spec files ps).1
+
+/-- TruncatePages removes a page iff its ID is below the bound — after any history, in
+particular on a factory that was truncated before (the smallest id is no longer 0) or reloaded. -/
+theorem factory_truncate_exact (files : List Nat) (ps : Nat) (ops : List FOp) (b j : Nat)
+    (hopen : ((Fct.new files ps).run ops).closed = false) :
+    j ∈ (((Fct.new files ps).run ops).truncate b).pages ↔ (j ∈ ((Fct.new files ps).run ops).pages ∧ b ≤ j) :=
+  truncate_mem (factory_invariant files ps ops) hopen b j
+
+/-- AcquirePage is exact and idempotent on an open factory: afterwards the page is there, every
+other page is as before; a second AcquirePage of the same id changes nothing. -/
+theorem factory_acquire_exact (f : Fct) (hopen : f.closed = false) (i j : Nat) :
+    (j ∈ (f.acquire i).1.pages ↔ (j = i ∨ j ∈ f.pages)) ∧
+    ((f.acquire i).1.acquire i).1 = (f.acquire i).1 := by
+  refine ⟨acquire_mem hopen i j, ?_⟩
+  have hi : i ∈ (f.acquire i).1.pages := (acquire_mem hopen i i).mpr (Or.inl rfl)
+  have hc : (f.acquire i).1.closed = false := by rw [acquire_closed]; exact hopen
+  rw [acquire_of_mem hc hi]
+
+/-- A page that was acquired stays (map and file) through every later history whose truncation
+bounds are at or below its id — repeated truncations, Close and reload included. -/
+theorem factory_page_survives (files : List Nat) (ps : Nat) (pre post : List FOp) (i : Nat)
+    (hi : i ∈ ((Fct.new files ps).run pre).pages) (hk : ∀ op ∈ post, op.keeps i) :
+    i ∈ (((Fct.new files ps).run pre).run post).pages :=
+  run_keeps post (factory_invariant files ps pre) i hi hk
+
+/-- a closed factory is inert: AcquirePage fails, TruncatePages and Close do nothing -/
+theorem factory_closed_inert (f : Fct) (hc : f.closed = true) (i b : Nat) :
+    f.acquire i = (f, .closedErr) ∧ f.truncate b = f ∧ f.close = f := by
+  refine ⟨?_, ?_, ?_⟩
+  · unfold Fct.acquire; rw [if_pos hc]
+  · unfold Fct.truncate; rw [if_pos hc]
+  · unfold Fct.close; rw [if_pos hc]
+
+/-- Close + NewFactory on the directory yields an open factory with exactly the same pages -/
+theorem factory_reload (f : Fct) (j : Nat) :
+    (j ∈ (Fct.new f.pages f.pageSize).pages ↔ j ∈ f.pages) ∧ (Fct.new f.pages f.pageSize).closed = false ∧
+    FInv (Fct.new f.pages f.pageSize) :=
+  ⟨(new_spec f.pages f.pageSize).2.2.2 j, (new_spec f.pages f.pageSize).2.1, (new_spec f.pages f.pageSize).1⟩
+
+/-- the queue model's view of a factory (`dataLive` / `indexLive` with `acquireData`,
+`truncateData`, …) is what the factory model computes -/
+theorem factory_refines_queue_model (mem : Mem) (pg b ps j : Nat) :
+    (acquireData mem pg).dataLive = ((Fct.ofLive mem.dataLive ps).acquire pg).1.pages ∧
+    (acquireIndex mem pg).indexLive = ((Fct.ofLive mem.indexLive ps).acquire pg).1.pages ∧
+    (mem.dataLive.Nodup → (j ∈ (truncateData mem b).dataLive ↔ j ∈ ((Fct.ofLive mem.dataLive ps).truncate b).pages)) ∧
+    (mem.indexLive.Nodup → (j ∈ (truncateIndex mem b).indexLive ↔ j ∈ ((Fct.ofLive mem.indexLive ps).truncate b).pages)) :=
+  ⟨acquireData_refines mem pg ps, acquireIndex_refines mem pg ps,
+   fun h => truncateData_refines mem h b ps j, fun h => truncateIndex_refines mem h b ps j⟩
+
+/-- In EVERY state reachable by the sequential alphabet (no side condition) the live-page lists
+are key sets — no page id twice — so the factory model opened on them satisfies its invariant
+and the queue model's GC truncation is exactly `TruncatePages` of the factory, on both families. -/
+theorem factory_refines_reachable (ops : List Op) (b ps j : Nat) :
+    FInv (Fct.ofLive (run St.init ops).mem.dataLive ps) ∧ FInv (Fct.ofLive (run St.init ops).mem.indexLive ps) ∧
+    (j ∈ (truncateData (run St.init ops).mem b).dataLive ↔
+       j ∈ ((Fct.ofLive (run St.init ops).mem.dataLive ps).truncate b).pages) ∧
+    (j ∈ (truncateIndex (run St.init ops).mem b).indexLive ↔
+       j ∈ ((Fct.ofLive (run St.init ops).mem.indexLive ps).truncate b).pages) := by
+  have h := liveOK_run liveOK_init ops
+  exact ⟨ofLive_inv h.1 ps, ofLive_inv h.2 ps, truncateData_refines _ h.1 b ps j, truncateIndex_refines _ h.2 b ps j⟩
+
+/-- INDEX PAGE GEOMETRY at the constants found in /repo now: the three fields lie inside an
+item without overlapping, an index page holds exactly `indexItemsPerPage` items, every item lies
+inside its page, and two different sequences never share a byte of any index page. The
+arithmetic behind it (`slot_inj`, `slot_fits`) is proved for ANY items-per-page and item length. -/
+theorem index_layout_generated :
+    (C05.queueDataPageIndexOffset + 8 ≤ C05.messageOffsetOffset ∧ C05.messageOffsetOffset + 4 ≤ C05.messageLengthOffset ∧
+      C05.messageLengthOffset + 4 ≤ C05.indexItemLength) ∧
+    C05.indexPageSize = C05.indexItemsPerPage * C05.indexItemLength ∧
+    (∀ n, slotOff C05.indexItemsPerPage C05.indexItemLength n + C05.indexItemLength ≤ C05.indexPageSize) ∧
+    (∀ n n' a b, n ≠ n' → a < C05.indexItemLength → b < C05.indexItemLength →
+      ¬ (slotPage C05.indexItemsPerPage n = slotPage C05.indexItemsPerPage n' ∧
+         slotOff C05.indexItemsPerPage C05.indexItemLength n + a = slotOff C05.indexItemsPerPage C05.indexItemLength n' + b)) := by
+  refine ⟨by decide, by decide, ?_, ?_⟩
+  · intro n
+    have h := slot_fits C05.indexItemsPerPage C05.indexItemLength (by decide) n
+    have e : C05.indexPageSize = C05.indexItemsPerPage * C05.indexItemLength := by decide
+    rw [e]; exact h
+  · intro n n' a b h ha hb
+    exact slot_inj _ _ h a b ha hb
+
+/-- INDEX PAGE BOUNDARY, for any items-per-page `P > 0` and item length `L`: sequence `k·P` is the
+first slot (offset 0) of index page `k`; `k·P + P − 1` is the last slot of page `k`; the
+successor of a sequence is in the next slot of the same page or — exactly when it was the last
+slot — in slot 0 of the next page. `entry` uses this arithmetic at the package constants. -/
+theorem index_boundary (P L : Nat) (hP : 0 < P) (k n : Nat) :
+    (slotPage P (k * P) = k ∧ slotOff P L (k * P) = 0) ∧
+    (slotPage P (k * P + (P - 1)) = k ∧ slotOff P L (k * P + (P - 1)) = (P - 1) * L) ∧
+    ((slotPage P (n + 1) = slotPage P n ∧ slotOff P L (n + 1) = slotOff P L n + L ∧ n % P + 1 < P) ∨
+     (slotPage P (n + 1) = slotPage P n + 1 ∧ slotOff P L (n + 1) = 0 ∧ n % P + 1 = P)) :=
+  ⟨slot_first P L hP k, slot_last P L hP k, slot_succ P L hP n⟩
+
+/-- DATA PAGE ROLL-OVER, for any page size `S`: the space `alloc` hands out lies inside one page
+(a message is never split), at the old cursor when it fits and at offset 0 of the next page
+exactly when it does not; the cursor ends right behind it; no sequence is touched. The model's
+`alloc` is the instance `S = dataPageSize` (by `rfl`). -/
+theorem rollover_symbolic (S : Nat) (mem : Mem) (q : Q) (len : Nat) (hl : len ≤ S) :
+    alloc = allocS dataPageSize ∧
+    (allocS S mem q len).off + len ≤ S ∧
+    (allocS S mem q len).q.messageOffset = (allocS S mem q len).off + len ∧
+    (allocS S mem q len).q.dataPageIndex = (allocS S mem q len).pg ∧
+    (allocS S mem q len).q.appended = q.appended ∧ (allocS S mem q len).q.acked = q.acked ∧
+    ((q.messageOffset + len ≤ S ∧ (allocS S mem q len).pg = q.dataPageIndex ∧ (allocS S mem q len).off = q.messageOffset) ∨
+     (q.messageOffset + len > S ∧ (allocS S mem q len).pg = q.dataPageIndex + 1 ∧ (allocS S mem q len).off = 0)) := by
+  obtain ⟨h1, h2, h3, h4, h5, _, h7⟩ := allocS_spec S mem q len hl
+  refine ⟨alloc_eq_allocS, h1, h2, h3, h4, h5, ?_⟩
+  rcases h7 with ⟨a, b, c, _⟩ | ⟨a, b, c, _⟩
+  · exact Or.inl ⟨a, b, c⟩
+  · exact Or.inr ⟨a, b, c⟩
+
+/-- exact fit at the page end (any page size): the message stays in the page, the cursor is the
+page size; then every non-empty message rolls to offset 0 of the next page, an empty one stays -/
+theorem rollover_exact_fit (S : Nat) (mem : Mem) (q : Q) (len : Nat) (h : q.messageOffset + len = S) :
+    (allocS S mem q len).pg = q.dataPageIndex ∧ (allocS S mem q len).q.messageOffset = S ∧
+    (∀ mem' len', 0 < len' →
+      (allocS S mem' (allocS S mem q len).q len').pg = q.dataPageIndex + 1 ∧
+      (allocS S mem' (allocS S mem q len).q len').off = 0) ∧
+    (∀ mem', (allocS S mem' (allocS S mem q len).q 0).pg = q.dataPageIndex ∧
+      (allocS S mem' (allocS S mem q len).q 0).off = S) :=
+  allocS_exact_fit S mem q len h
+
+/-- After every covered history, the item of every readable sequence describes a region inside
+ONE existing data page, and its index page exists. -/
+theorem message_within_one_page (ops : List Op) (h : OpsOK St.init ops) (n : Nat)
+    (hr : Readable (run St.init ops).q n) :
+    (entry (run St.init ops).mem n).off + (entry (run St.init ops).mem n).len ≤ dataPageSize ∧
+    (entry (run St.init ops).mem n).pg ∈ (run St.init ops).mem.dataLive ∧
+    n / indexItemsPerPage ∈ (run St.init ops).mem.indexLive := by
+  obtain ⟨⟨_, h2, h3⟩, h4⟩ := (run_inv_ok init_inv ops h).core.ent n hr
+  exact ⟨h2, h3, h4⟩
+
+/-- GET BOUNDS after every covered history (GCs, reopens, crashes, failed appends, resets
+included): `Get s` answers out-of-range exactly when `s > appended ∨ s ≤ acknowledged`; for
+every `acknowledged < s ≤ appended` it returns the message; it never answers "not found". -/
+theorem get_range_exact (ops : List Op) (h : OpsOK St.init ops) (s : Int) :
+    (get (run St.init ops) s = .outOfRange ↔
+      (s > (run St.init ops).q.appended ∨ s ≤ (run St.init ops).q.acked)) ∧
+    ((run St.init ops).q.acked < s ∧ s ≤ (run St.init ops).q.appended → ∃ b, get (run St.init ops) s = .ok b) ∧
+    get (run St.init ops) s ≠ .notFound := by
+  obtain ⟨h1, h2, h3⟩ := get_total (run_inv_ok init_inv ops h) s
+  exact ⟨h1, fun hr => ⟨_, h2 hr⟩, h3⟩
+
+/-- A FAILED APPEND CHANGES NOTHING OBSERVABLE, index-page variant: after a Put that failed
+because the index-page switch failed (the cursor has moved over the abandoned space), `Get` of
+EVERY sequence — readable, acknowledged, beyond the end — answers exactly as before, and both
+positions are unchanged. (For the other two failures the whole state is unchanged:
+`failed_put_preserves`, `rejected_put_preserves`.) -/
+theorem failed_index_put_unobservable (pre : List Op) (hpre : OpsOK St.init pre) (m : Msg)
+    (hf : (putFI (run St.init pre) m).2 = .acquireFailed) (s : Int) :
+    get (putFI (run St.init pre) m).1 s = get (run St.init pre) s ∧
+    (putFI (run St.init pre) m).1.q.appended = (run St.init pre).q.appended ∧
+    (putFI (run St.init pre) m).1.q.acked = (run St.init pre).q.acked := by
+  have I1 := run_inv_ok init_inv pre hpre
+  obtain ⟨I2, _, _, p3⟩ := putFI_inv I1 m
+  obtain ⟨ha, hk⟩ := failed_index_put_keeps_sequences (run St.init pre) (putFI (run St.init pre) m).1 m
+    (Prod.ext rfl hf)
+  refine ⟨?_, ha, hk⟩
+  obtain ⟨a1, a2, _⟩ := get_total I1 s
+  obtain ⟨b1, b2, _⟩ := get_total I2 s
+  by_cases h : s > (run St.init pre).q.appended ∨ s ≤ (run St.init pre).q.acked
+  · rw [a1.mpr h, b1.mpr (by rw [ha, hk]; exact h)]
+  · have hr : (run St.init pre).q.acked < s ∧ s ≤ (run St.init pre).q.appended := by omega
+    rw [a2 hr, b2 (by rw [ha, hk]; exact hr)]
+    have hlo := I1.core.ackLo
+    have r1 : Readable (run St.init pre).q s.toNat := by unfold Readable; omega
+    have r2 : Readable (putFI (run St.init pre) m).1.q s.toNat := by unfold Readable; rw [ha, hk]; omega
+    rw [p3 _ r1 r2]
+
+/-- `partition.WriteLog`: a write that returned success under sequence `s` is a `Put` that
+returned `s`, so it is read back byte for byte while above the acknowledged position, whatever
+history follows (`get_after_put`). -/
+theorem writeLog_readable (pre post : List Op) (m : Msg) (st2 : St) (s : Int) (closed : Bool)
+    (hpre : OpsOK St.init pre)
+    (hw : writeLog closed (run St.init pre) m = (st2, .put (.ok s)))
+    (hpost : OpsOK st2 post) (hstay : Stays st2 s.toNat post) :
+    closed = false ∧ 0 < m.len ∧ get (run st2 post) s = .ok m.bytes := by
+  unfold writeLog at hw
+  split at hw
+  · cases hw
+  · rename_i hc
+    split at hw
+    · cases hw
+    · rename_i hl
+      have hput : put (run St.init pre) m = (st2, .ok s) := by
+        injection hw with h1 h2
+        injection h2 with h2
+        exact Prod.ext h1 h2
+      exact ⟨by simpa using hc, by omega, get_after_put pre post m st2 s hpre hput hpost hstay⟩
+
+/-- `WriteLog` on a closed partition, of an empty message, or rejected by the queue: the queue
+is exactly as it was (no sequence is consumed by the empty message). -/
+theorem writeLog_not_appended (closed : Bool) (st st' : St) (m : Msg) (r : WlRes)
+    (h : writeLog closed st m = (st', r)) (hr : ∀ s, r ≠ .put (.ok s)) (hnf : r ≠ .put .acquireFailed) : st' = st := by
+  unfold writeLog at h
+  split at h
+  · injection h with h1 _; exact h1.symm
+  · split at h
+    · injection h with h1 _; exact h1.symm
+    · injection h with h1 h2
+      subst h2
+      cases hp : (put st m).2 with
+      | ok s => exact absurd (by rw [hp]) (hr s)
+      | acquireFailed => exact absurd (by rw [hp]) hnf
+      | tooLarge =>
+        rw [← h1]
+        exact rejected_put_preserves st (put st m).1 m (Prod.ext rfl hp)
+
+/-- `partition.ReplicaLog` answering "appended under `i`": then `i` is the index the leader sent,
+it is the queue's next sequence, and the message is a `Put` that returned `i` — read back under
+`i` while above the acknowledged position after any later history. -/
+theorem replicaLog_ok_readable (pre post : List Op) (m : Msg) (st2 : St) (idx i : Int) (closed : Bool)
+    (hpre : OpsOK St.init pre)
+    (hrl : replicaLog closed (run St.init pre) idx m = (st2, .ok i))
+    (hpost : OpsOK st2 post) (hstay : Stays st2 i.toNat post) :
+    closed = false ∧ i = idx ∧ i = (run St.init pre).q.appended + 1 ∧ st2.q.appended = i ∧
+    get (run st2 post) i = .ok m.bytes := by
+  unfold replicaLog at hrl
+  split at hrl
+  · cases hrl
+  · rename_i hc
+    dsimp only at hrl
+    split at hrl
+    · cases hrl
+    · rename_i hidx
+      split at hrl
+      · rename_i st' s hp
+        injection hrl with h1 h2
+        injection h2 with h2
+        subst h1
+        obtain ⟨e1, e2⟩ := put_returns_next _ _ _ _ hp
+        have hs : s = i := by omega
+        subst hs
+        exact ⟨by simpa using hc, by omega, e1, e2, get_after_put pre post m st' s hpre hp hpost hstay⟩
+      · injection hrl with _ h2; cases h2
+
+/-- `ReplicaLog` with an index other than the next sequence (or on a closed partition): nothing
+is appended; the answer is the index the follower expects next. -/
+theorem replicaLog_skip_unchanged (closed : Bool) (st st' : St) (idx : Int) (m : Msg) (r : RlRes)
+    (h : replicaLog closed st idx m = (st', r)) (hne : closed = true ∨ idx ≠ st.q.appended + 1) :
+    st' = st ∧ (closed = false → r = .skip (st.q.appended + 1)) := by
+  unfold replicaLog at h
+  split at h
+  · injection h with h1 _; exact ⟨h1.symm, fun hc => by simp_all⟩
+  · rename_i hc
+    dsimp only at h
+    split at h
+    · injection h with h1 h2; exact ⟨h1.symm, fun _ => h2.symm⟩
+    · rename_i hidx
+      rcases hne with h' | h'
+      · exact absurd h' hc
+      · exact absurd h' (by simpa using hidx)
+
+/-- `ResetReplicaIndex(idx)` is `SetAppendedSeq(idx − 1)`: the next append gets index `idx` -/
+theorem resetReplicaIndex_next (st : St) (idx : Int) (m : Msg) (st' : St) (s : Int)
+    (h : put (resetReplicaIndex st idx) m = (st', .ok s)) : s = idx ∧ replicaAckIndex st' = idx := by
+  obtain ⟨e1, e2⟩ := put_returns_next _ _ _ _ h
+  have : (resetReplicaIndex st idx).q.appended = idx - 1 := rfl
+  exact ⟨by omega, by unfold replicaAckIndex; omega⟩
+
 /-! ## non-vacuity -/
+
+/-- a factory history with page ids that do not start at 0, two truncations, a closed phase and a
+reload: the invariant's hypotheses are met by a non-trivial state -/
+example :
+    let f := (Fct.new [3, 1, 2] 64).run [.acquire 5, .truncate 2, .truncate 3, .acquire 3, .close, .acquire 9,
+      .truncate 9, .reopen, .acquire 7]
+    f.pages = [7, 3, 5] ∧ f.size = 192 ∧ f.closed = false ∧ FInv f := by
+  refine ⟨by decide, by decide, by decide, ?_⟩
+  exact factory_invariant [3, 1, 2] 64 _
+
+/-- the partition glue on a concrete history: write, replica with the expected index, replica
+with a stale index (skipped), empty write (no sequence), reset, replica at the reset index -/
+example :
+    let s1 := (writeLog false St.init msgA).1
+    let r2 := replicaLog false s1 1 msgB
+    let r3 := replicaLog false r2.1 1 msgC
+    let r4 := writeLog false r3.1 (Msg.ofList [])
+    let s5 := resetReplicaIndex r4.1 10
+    let r6 := replicaLog false s5 10 msgC
+    (writeLog false St.init msgA).2 = .put (.ok 0) ∧ r2.2 = .ok 1 ∧ r3.2 = .skip 2 ∧ r4.2 = .noop ∧
+    r6.2 = .ok 10 ∧ get r3.1 0 = .ok msgA.bytes ∧ get r3.1 1 = .ok msgB.bytes ∧ get r6.1 10 = .ok msgC.bytes ∧
+    (writeLog true r6.1 msgA).2 = .closed := by
+  refine ⟨by decide, by decide, by decide, by decide, by decide, by decide, by decide, by decide, by decide⟩
 
 /-- a sequential history with a roll-over, an ack, a GC, a crash inside the copy, a crash
 inside the index stores and a reopen, after which a Put returns and is read back -/
